@@ -8,7 +8,8 @@ CONSTANTS
   ReqHosts = {"", "h1", "h2"}
   StaticHosts = {"", "h1"}
   MaxStatic = 2
+  LeaseT = 3
 INVARIANTS
   OneHolderPerAddress KeyedByAddress OneLeasePerClient DynamicInsidePool
   ReservedClientGetsReservation OfferWhenFree DiskEqualsMemoryEachOnce
-  RestartRestoresSameTable HostsUnique StaticsHeld BoundedStatics
+  RestartRestoresSameTable HostsUnique RemBounded NoReuseBeforeAnnouncedExpiry BoundedStatics
